@@ -54,7 +54,7 @@ def run(ctx):
     sub = type(ctx)(ctx.prog, ctx.prop, ctx.tier, ctx.depth)
     c04.r1(sub, ctx.prog.enum('qb_ipcs_connection_state'))
     for r in sub.results:
-        if r['key'].startswith('disconnect:ACTIVE'):
+        if r['key'].startswith('disconnect:ACTIVE') or r['key'].endswith('-transport-sees-the-state'):
             r['rule'] = 'R13'
             ctx.results.append(r)
 
